@@ -25,6 +25,65 @@ ROW_LOOKUPS = [
 ]
 
 
+def where_disjuncts(text, at):
+    """the top-level OR branches of the WHERE clause that contains offset `at` (parentheses respected; the clause ends at
+    GROUP BY / ORDER BY / LIMIT / UNION or at the closing parenthesis of its sub-select)"""
+    # start: the last WHERE before `at` at the same nesting depth
+    depth = 0
+    start = None
+    i = at
+    while i >= 0:
+        c = text[i]
+        if c == ")":
+            depth += 1
+        elif c == "(":
+            if depth == 0:
+                break
+            depth -= 1
+        elif depth == 0 and re.match(r"(?i)\bWHERE\b", text[i:i + 6]) and (i == 0 or not text[i - 1].isalnum()):
+            start = i + 5
+            break
+        i -= 1
+    if start is None:
+        return [text]
+    depth = 0
+    j = start
+    end = len(text)
+    while j < len(text):
+        c = text[j]
+        if c == "(":
+            depth += 1
+        elif c == ")":
+            if depth == 0:
+                end = j
+                break
+            depth -= 1
+        elif depth == 0 and re.match(r"(?i)\b(GROUP\s+BY|ORDER\s+BY|LIMIT|UNION)\b", text[j:j + 10]) and not text[j - 1].isalnum():
+            end = j
+            break
+        j += 1
+    clause = text[start:end]
+    out = []
+    depth = 0
+    cur = ""
+    k = 0
+    while k < len(clause):
+        c = clause[k]
+        if c == "(":
+            depth += 1
+        elif c == ")":
+            depth -= 1
+        if depth == 0 and re.match(r"(?i)\bOR\b", clause[k:k + 3]) and (k == 0 or not (clause[k - 1].isalnum() or clause[k - 1] == "_")) and not (clause[k + 2:k + 3].isalnum() or clause[k + 2:k + 3] == "_"):
+            out.append(cur)
+            cur = ""
+            k += 2
+            continue
+        cur += c
+        k += 1
+    out.append(cur)
+    return out
+
+
 def contains_guard(body, guards):
     """the room term X of a dominating true edge of peer.allowed_room.contains(&X), else None"""
     for s, vals, term in guards:
@@ -217,12 +276,19 @@ def run(P, C, tier):
                     ok = False
                     details.append("statement text not constant")
                     continue
-                m = re.search(pat, text)
+                m = re.search(pat + r"(\d*)", text)
                 if not m:
                     ok = False
                     details.append("statement lacks the room constraint /%s/" % pat)
                     continue
-                pos = text[:m.end()].count("?") - 1
+                # the constraint must hold for EVERY returned row: it is a conjunct of every top-level OR branch of its WHERE clause
+                branches = where_disjuncts(text, m.start())
+                loose = [br for br in branches if not re.search(pat, br)]
+                if loose:
+                    ok = False
+                    details.append("the room constraint does not cover the OR branch `%s` (AND binds tighter than OR): rows of any room are returned" % sql.norm(loose[0])[:70])
+                    continue
+                pos = int(m.group(m.lastindex)) - 1 if m.group(m.lastindex) else text[:m.end()].count("?") - 1
                 # the parameter bound at that position, in the execution(s) of THIS statement
                 bound = None
                 n_exec = 0
